@@ -127,10 +127,10 @@ func run(c *core.Ctx) {
 
 	// (the route and hint invariants are also checked by the Gen_G06_route* / Gen_G06_hint configurations)
 	mcs := []string{"MC_G06_listener_quick.cfg", "MC_G06_scripts.cfg", "MC_G06_live_quick.cfg"}
-	mixCfg, routeCfg := "Gen_G06_mix_quick.cfg", "Gen_G06_route.cfg"
+	mixName, mixCfg, routeCfg := "mixq", "Gen_G06_mix_quick.cfg", "Gen_G06_route.cfg"
 	if c.Thorough() {
 		mcs = []string{"MC_G06_listener.cfg", "MC_G06_scripts.cfg", "MC_G06_live.cfg", "MC_G06_route.cfg", "MC_G06_hint.cfg"}
-		mixCfg, routeCfg = "Gen_G06_mix.cfg", "Gen_G06_route_thorough.cfg"
+		mixName, mixCfg, routeCfg = "mixt", "Gen_G06_mix.cfg", "Gen_G06_route_thorough.cfg"
 	}
 	tabs := map[string]*spreplay.Table{}
 	var rows, hintRows []spreplay.Row
@@ -185,9 +185,18 @@ func run(c *core.Ctx) {
 			return
 		}
 		if rf.Scenario.Kind == "SharedPortListener" {
-			genTable("single", "Gen_G06_single.cfg")
-			genTable("mix", "Gen_G06_mix_quick.cfg")
-			genTable("mixT", "Gen_G06_mix.cfg")
+			var lj struct {
+				Scenario struct {
+					Job spreplay.Job `json:"job"`
+				} `json:"scenario"`
+			}
+			_ = json.Unmarshal(b, &lj)
+			cfg := map[string]string{"single": "Gen_G06_single.cfg", "mixq": "Gen_G06_mix_quick.cfg", "mixt": "Gen_G06_mix.cfg"}[lj.Scenario.Job.Table]
+			if cfg == "" {
+				c.Broken("replay file names an unknown table %q", lj.Scenario.Job.Table)
+				return
+			}
+			genTable(lj.Scenario.Job.Table, cfg)
 			if c.IsBroken() {
 				return
 			}
@@ -223,6 +232,7 @@ func run(c *core.Ctx) {
 	var rst rowStats
 	var jobs []spreplay.Job
 	nScripts := 0
+	sampled := false
 	var pwg sync.WaitGroup
 	pwg.Add(2)
 	// ---- listener scripts: generated, then replayed (while the other TLC runs go on)
@@ -231,12 +241,12 @@ func run(c *core.Ctx) {
 		var gwg sync.WaitGroup
 		gwg.Add(2)
 		go func() { defer gwg.Done(); genTable("single", "Gen_G06_single.cfg") }()
-		go func() { defer gwg.Done(); genTable("mix", mixCfg) }()
+		go func() { defer gwg.Done(); genTable(mixName, mixCfg) }()
 		gwg.Wait()
 		if c.IsBroken() {
 			return
 		}
-		for _, name := range []string{"single", "mix"} {
+		for _, name := range []string{"single", mixName} {
 			t := tabs[name]
 			nScripts += len(t.Keys)
 			keys := append([]string{}, t.Keys...)
@@ -244,6 +254,10 @@ func run(c *core.Ctx) {
 			budget := 900
 			if c.Thorough() {
 				budget = len(keys)
+				if budget > 15000 {
+					budget = 15000 // a seeded sample of the five-step scripts
+					sampled = true
+				}
 			}
 			if budget > len(keys) {
 				budget = len(keys)
@@ -351,6 +365,17 @@ func run(c *core.Ctx) {
 	c.Set("runs_on_adopted_listeners", lst.Adopted)
 	c.Set("runs_with_permissive_scripts", lst.Either)
 	c.Set("runs_rerun_with_long_waits", lst.Retried)
+	disagree, example := 0, ""
+	for _, r := range rows {
+		if r.Kind == "route" && !r.Sin.Err && fmt.Sprint(r.Ht.ID) != fmt.Sprint(r.Sin.Sock) {
+			disagree++
+			if example == "" && r.Shape.Sep == ";" && len(r.Shape.Ps) == 2 && r.Shape.Ps[1] == "sock" && r.Shape.Ps[0] == "alias" {
+				example = fmt.Sprint(r.Addr)
+			}
+		}
+	}
+	c.Set("shapes_where_ParseHTCondorAddress_and_ParseSinful_read_different_sock_ids", disagree)
+	c.Note(fmt.Sprintf("observation (model level, both parsers conform to their transcription): on %d of %d shapes of the grid -- none of them canonical (ParsersAgree) -- ParseHTCondorAddress and ParseSinful read different shared-port ids (';' separators, %%XX escapes, a repeated sock parameter, e.g. tokens %s: the client routes by ParseHTCondorAddress and connects directly, ParseSinful and HTCondor read sock=id)", disagree, len(rows), example))
 	c.Set("address_shapes", len(rows))
 	c.Set("parser_comparisons", rst.parsed)
 	c.Set("routes_executed", rst.executed)
@@ -369,6 +394,6 @@ func run(c *core.Ctx) {
 		c.Broken("G06 replay is vacuous: delivered=%d dropped=%d waited=%d racing=%d afterClose=%d adopted=%d sp=%d direct=%d reject=%d hinted=%d unhinted=%d ctx=%d",
 			lst.Delivered, lst.Dropped, lst.Waited, lst.Racing, lst.AfterClose, lst.Adopted, rst.sp, rst.direct, rst.reject, rst.hinted, rst.unhinted, rst.ctx)
 	}
-	c.Set("exhaustive", c.Thorough())
-	c.Set("rule", "listener: behaviours = every interleaving of the scripted environment (daemon connections sending one of 126 scripts = 9 header classes x 7 descriptor classes x hang up / hold; Accept calls, also concurrent; Close calls, also repeated; each step at rest or racing with the previous one; Listen / AdoptFD) with the listener's internal steps, printed by TLC from Gen_SharedPort; behaviours with the same environment script form its set of admissible outcomes (snapshots at every point of rest + the final one); each script is one REAL sharedport.Listener on a unix socket with real SCM_RIGHTS passing of loopback TCP connections; classes expand to concrete members by a seeded salt (which flag / command / length / cut, one write / split / dribbled / the package's own SendForwardedConn, which non-socket, stale socket file, nested directory); quick replays a seeded sample of 900 scripts per configuration, thorough every script. route: one row per address shape of the grid (bracket form x host form x leading space x lists of up to two (thorough: three) of 22 parameter classes x separator), the real ParseHTCondorAddress / ParseSinful / SplitCCBContact / IsValidSharedPortID compared with the spec's token-level results for several concrete renderings, every third row (thorough: every row x 3 entry points) executed against a scripted daemon and the request decoded by refcodec. hint: every address shape x error class through client.ConnectAndAuthenticateWithConfig. non-trivial = listener script with at least three environment steps / shape with parameters / executed route")
+	c.Set("exhaustive", c.Thorough() && !sampled)
+	c.Set("rule", "listener: behaviours = every interleaving of the scripted environment (daemon connections sending one of 126 scripts = 9 header classes x 7 descriptor classes x hang up / hold; Accept calls, also concurrent; Close calls, also repeated; each step at rest or racing with the previous one; Listen / AdoptFD) with the listener's internal steps, printed by TLC from Gen_SharedPort; behaviours with the same environment script form its set of admissible outcomes (snapshots at every point of rest + the final one); each script is one REAL sharedport.Listener on a unix socket with real SCM_RIGHTS passing of loopback TCP connections; classes expand to concrete members by a seeded salt (which flag / command / length / cut, one write / split / dribbled / the package's own SendForwardedConn, which non-socket, stale socket file, nested directory); quick replays a seeded sample of 900 scripts per configuration, thorough every one-connection script and up to 15000 of the two-connection scripts. route: one row per address shape of the grid (bracket form x host form x leading space x lists of up to two (thorough: three) of 22 parameter classes x separator), the real ParseHTCondorAddress / ParseSinful / SplitCCBContact / IsValidSharedPortID compared with the spec's token-level results for several concrete renderings, every third row (thorough: every row x 3 entry points) executed against a scripted daemon and the request decoded by refcodec. hint: every address shape x error class through client.ConnectAndAuthenticateWithConfig. non-trivial = listener script with at least three environment steps / shape with parameters / executed route")
 }
